@@ -141,7 +141,11 @@ func (e *Engine) heapSet(st *State, name, sort, t string) {
 func (e *Engine) heapHavoc(st *State, name string) {
 	sort, ok := e.heapSorts[name]
 	if !ok {
-		return
+		// not read yet: register it, so that a later first read sees the havoc'd version
+		if sort, ok = e.allSorts[name]; !ok {
+			return
+		}
+		e.heapGet(st, name, sort)
 	}
 	st.heap[name] = e.S.Fresh(name, sort)
 }
@@ -150,24 +154,63 @@ func (e *Engine) fieldMapName(root types.Type, i int) (string, string) {
 	u := root.Underlying().(*types.Struct)
 	f := u.Field(i)
 	name := fmt.Sprintf("F_%s_%s", shortTypeName(root), mangle(f.Name()))
-	return name, fmt.Sprintf("(Array Int %s)", e.sortOf(f.Type()))
+	srt := fmt.Sprintf("(Array Int %s)", e.sortOf(f.Type()))
+	return e.noteSort(name, srt), srt
 }
 
+// Heap maps are split by Go type, not only by SMT sort: memory of different Go types is disjoint
+// (type safety; unsafe conversions are outside the model). E.g. a []byte and a []*T never alias
+// although bytes and pointers are both integers in SMT.
 func (e *Engine) arrMapName(elem types.Type) (string, string) {
 	es := e.sortOf(elem)
-	return "Arr_" + mangle(es), fmt.Sprintf("(Array Int (Array %s %s))", e.S.IntSort(), es)
+	srt := fmt.Sprintf("(Array Int (Array %s %s))", e.S.IntSort(), es)
+	return e.noteSort("Arr_"+goTypeTag(elem, es), srt), srt
 }
 
 func (e *Engine) boxMapName(t types.Type) (string, string) {
 	es := e.sortOf(t)
-	return "Box_" + mangle(es), fmt.Sprintf("(Array Int %s)", es)
+	srt := fmt.Sprintf("(Array Int %s)", es)
+	return e.noteSort("Box_"+goTypeTag(t, es), srt), srt
+}
+
+// goTypeTag: a short, stable tag for a Go type (identical types get identical tags).
+func goTypeTag(t types.Type, sort string) string {
+	t = types.Unalias(t)
+	switch u := t.(type) {
+	case *types.Basic:
+		switch u.Kind() {
+		case types.Uint8:
+			return "byte"
+		case types.Int32:
+			return "int32"
+		}
+		return mangle(u.Name())
+	case *types.Named:
+		return shortTypeName(t)
+	case *types.Pointer:
+		return "p_" + goTypeTag(u.Elem(), "")
+	case *types.Slice:
+		return "s_" + goTypeTag(u.Elem(), "")
+	case *types.Interface:
+		if u.NumMethods() == 0 {
+			return "any"
+		}
+		return "Iface_" + typeKey(t)
+	case *types.Signature:
+		return "func"
+	case *GhostT:
+		return mangle(sort)
+	case *types.TypeParam:
+		return "TP_" + mangle(u.Obj().Name())
+	}
+	return typeKey(t)
 }
 
 func (e *Engine) mapHeapNames(m *types.Map) (string, string, string, string) {
 	ks, vs := e.sortOf(m.Key()), e.sortOf(m.Elem())
 	base := mangle(ks) + "_" + mangle(vs)
-	return "MapHas_" + base, fmt.Sprintf("(Array Int (Array %s Bool))", ks),
-		"MapVal_" + base, fmt.Sprintf("(Array Int (Array %s %s))", ks, vs)
+	hs, vsrt := fmt.Sprintf("(Array Int (Array %s Bool))", ks), fmt.Sprintf("(Array Int (Array %s %s))", ks, vs)
+	return e.noteSort("MapHas_"+base, hs), hs, e.noteSort("MapVal_"+base, vsrt), vsrt
 }
 
 // fieldType walks path from root
